@@ -209,5 +209,18 @@ def attr_global_fn(s, k):
     return k * s * math.tau / math.pi
 
 
+def posonly_mixed_fn(s, /, k):
+    """Positional-only parameter followed by an ordinary one (not symmetric in its arguments)."""
+    return k * s * s / (1.0 + s)
+
+
+def posonly_all_fn(s, k, /):
+    return k * s / (2.0 + s)
+
+
+def default_arg_fn(s, k=2.0):
+    return k * s / (3.0 + s)
+
+
 EDGE_FNS = [ann_rebind_fn, walrus_rebind_fn, unpack_call_fn, chained_rebind_fn, nested_def_fn, aug_arg_fn,
-            int_global_fn, list_global_fn, str_global_fn, attr_global_fn]
+            int_global_fn, list_global_fn, str_global_fn, attr_global_fn, posonly_mixed_fn, posonly_all_fn, default_arg_fn]
